@@ -1394,6 +1394,11 @@ func (c *Context) Pow(d, x, y *Decimal) (Condition, error) {
 
 	if yIsInt {
 		res |= c.round(d, z)
+		// The power has more digits than z keeps: it can be inexact although
+		// the last rounding dropped nothing.
+		if res.Inexact() && res.Subnormal() {
+			res |= Underflow
+		}
 		return c.goError(res)
 	}
 
